@@ -29,6 +29,41 @@ pub trait VxIterExt<T>: Sized {
             old(self).vx_seq().len() == 0 ==> r is None && final(self).vx_seq() == old(self).vx_seq(),
             old(self).vx_seq().len() > 0 ==> r == Some(old(self).vx_seq()[0]) && final(self).vx_seq() == old(self).vx_seq().drop_first(),
     ;
+
+    /// Iterator::map, element-wise in order (A-iter: the closure has no side effects)
+    fn map<U, F: Fn(T) -> U>(self, f: F) -> (r: Vec<U>)
+        requires
+            forall|i: int| 0 <= i < self.vx_seq().len() ==> #[trigger] f.requires((self.vx_seq()[i],)),
+        ensures
+            r@.len() == self.vx_seq().len(),
+            forall|i: int| #![trigger r@[i]] #![trigger self.vx_seq()[i]] 0 <= i < r@.len() ==> f.ensures((self.vx_seq()[i],), r@[i]),
+    ;
+
+    /// Iterator::collect into a container that is built by successive insertion
+    fn collect<B: VxFromVec<T>>(self) -> (r: B)
+        ensures
+            B::from_vec_post(self.vx_seq(), r),
+    ;
+}
+
+/// FromIterator restricted to the sequence-valued iterators
+pub trait VxFromVec<T>: Sized {
+    spec fn from_vec_post(s: Seq<T>, r: Self) -> bool;
+
+    fn vx_from_vec(v: Vec<T>) -> (r: Self)
+        ensures
+            Self::from_vec_post(v@, r),
+    ;
+}
+
+impl<T> VxFromVec<T> for Vec<T> {
+    open spec fn from_vec_post(s: Seq<T>, r: Vec<T>) -> bool {
+        r@ == s
+    }
+
+    fn vx_from_vec(v: Vec<T>) -> (r: Vec<T>) {
+        v
+    }
 }
 
 impl<T> VxIterExt<T> for Vec<T> {
@@ -54,6 +89,15 @@ impl<T> VxIterExt<T> for Vec<T> {
     #[verifier::external_body]
     fn next(&mut self) -> (r: Option<T>) {
         if self.is_empty() { None } else { Some(self.remove(0)) }
+    }
+
+    #[verifier::external_body]
+    fn map<U, F: Fn(T) -> U>(self, f: F) -> (r: Vec<U>) {
+        self.into_iter().map(f).collect()
+    }
+
+    fn collect<B: VxFromVec<T>>(self) -> (r: B) {
+        B::vx_from_vec(self)
     }
 }
 
